@@ -348,7 +348,9 @@ def check_manager(case):
     deform = {n: tuple(o["deform"]) for n, o in case["opts"].items() if "deform" in o}
     ignore = {n: o["ignore"] for n, o in case["opts"].items() if "ignore" in o}
     bad = case["bad"]
-    first = case["species"][0]
+    # the species that carries the malformed value: the first or the last of the system (the refusal has to come before
+    # ANY species is aligned, not just before the one concerned)
+    first = case["species"][-1 if len(case["species"][0]["name"]) + case["species"][0]["ns"] + len(case["species"]) & 1 else 0]
     if bad == "unknown-restr":
         restr["NOPE"] = [(0, 0)]
     elif bad == "unknown-deform":
